@@ -100,6 +100,21 @@ source_for(const std::string &profile, const std::string &prop, int tier)
                                         v.detail = b;
                                         v.op_index = -1;
                                         out.push_back(v);
+                                } else if (alone.task_hash_user[t] != r.task_hash_user[t]) {
+                                        // same own-field history, but imb_get_errno() differs: the process-wide mirror shows through
+                                        Violation v;
+                                        v.prop = "C17";
+                                        v.oracle = "indep.errno_mirror";
+                                        char b[300];
+                                        snprintf(b, sizeof b,
+                                                 "task %zu (%s): imb_get_errno() after some call returns a code that this manager never produced "
+                                                 "(its own error field is identical to the run alone): the last error of another manager is "
+                                                 "reported through the process-wide mirror",
+                                                 t, cfg_name(p.task_cfg[t]));
+                                        v.detail = b;
+                                        v.op_index = -1;
+                                        v.key = "what=errno-of-another-manager-via-process-wide-mirror";
+                                        out.push_back(v);
                                 }
                         }
                 };
